@@ -143,8 +143,39 @@ defprog! {
    }
 }
 
+// variables bound by an item *before* a two-clause join (generator, let, earlier clause,
+// aggregate) and used by the second clause of that join: the join must not be reordered blindly
+defprog! {
+   name: prebound_join;
+   timeouts: yes;
+   positive: false;
+   tags: ["c02", "c05", "c13", "c14", "c20"];
+   rels: {
+      relation foo(u32, u32) [input];
+      relation bar(u32, u32) [input];
+      relation pick(u32) [input];
+      relation r_for(u32, u32) [];
+      relation r_let(u32, u32) [];
+      relation r_clause(u32, u32) [];
+      relation r_rec(u32, u32) [];
+      relation top(u32) [];
+      relation r_agg(u32, u32) [];
+   }
+   gens: [("random", gens::random), ("small", gens::small)];
+   rules: {
+      r_for(x, z) <-- for z in 0..3u32, foo(x, y), bar(y, z);
+      r_let(x, z) <-- let z = 2u32, foo(x, y), bar(y, z);
+      r_clause(x, w) <-- pick(w), foo(x, y), bar(y, w);
+      r_rec(x, z) <-- pick(z), foo(x, y), bar(y, z);
+      r_rec(x, z) <-- for z in 1..4u32, r_rec(x, y), bar(y, z), if x != y;
+      top(m) <-- agg m = ascent::aggregators::max(v) in pick(v);
+      r_agg(x, m) <-- top(m), foo(x, y), bar(y, m);
+   }
+}
+
 pub fn all() -> Vec<ProgramDef> {
    vec![
+      prebound_join::def(),
       disjunction_patterns::def(),
       exprs_and_indices::def(),
       demand_fib::def(),
